@@ -66,6 +66,15 @@ func runArpCase(c arpCase) {
 			panic(err.String())
 		}
 	}
+	// a second interface with an address of its own: requests for it that arrive on NIC 1 are
+	// requests for a foreign address as far as NIC 1 is concerned
+	id2, _ := netx.NewLink(1500, caps, tcpip.LinkAddress([]byte{2, 0, 0, 0, 2, 2}))
+	if err := n.S.CreateNIC(2, id2); err != nil {
+		panic(err.String())
+	}
+	if err := n.S.AddAddress(2, netx.ProtoIPv4, tcpip.Address(otherNIC)); err != nil {
+		panic(err.String())
+	}
 	first := c.pkt
 	var chunks []int
 	if c.chunk >= 0 && c.chunk < len(c.pkt) {
@@ -142,6 +151,9 @@ var (
 	macPeer = []byte{2, 0, 0, 0, 0, 9}
 )
 
+// the address of the stack's second interface (NIC 2); never an address of NIC 1
+var otherNIC = []byte{10, 9, 9, 9}
+
 func baseReq(tpa []byte) arpPkt {
 	return arpPkt{htype: 1, ptype: 0x0800, hlen: 6, plen: 4, op: 1, sha: macPeer, spa: []byte{10, 0, 0, 9}, tha: make([]byte, 6), tpa: tpa}
 }
@@ -152,7 +164,7 @@ func runArp(r *gen.Rng, n int) {
 			extra: [][]byte{own1, foreign}}
 	}
 	// --- lattice 1: every op x every kind of target
-	targets := [][]byte{own1, own2, foreign, {10, 0, 0, 0}, {255, 255, 255, 255}, {0, 0, 0, 0}, {10, 0, 0, 9}}
+	targets := [][]byte{own1, own2, foreign, otherNIC, {10, 0, 0, 0}, {255, 255, 255, 255}, {0, 0, 0, 0}, {10, 0, 0, 9}}
 	ops := []uint16{1, 2, 0, 3, 4, 256, 257, 512, 0x0101, 0x0201, 0x0102, 0xffff}
 	for _, op := range ops {
 		for _, t := range targets {
@@ -248,6 +260,9 @@ func runArp(r *gen.Rng, n int) {
 			case 0, 1, 2:
 				return locals[r.Intn(len(locals))]
 			case 3:
+				if r.Intn(2) == 0 {
+					return otherNIC
+				}
 				return foreign
 			case 4:
 				x := append([]byte(nil), locals[r.Intn(len(locals))]...)
